@@ -1044,7 +1044,7 @@ func (f *Frame) convert(x *Value, from, to types.Type) *Value {
 	case fs == sSlice && ts == sStr: // string([]byte)
 		el := from.Underlying().(*types.Slice).Elem()
 		c := e.comp(f.st, e.elemComp(el), arr2Sort(sInt))
-		return term(app("bytes", sel(c, app("sarr", x.T)), app("soff", x.T), app("+", app("soff", x.T), app("slen", x.T))), sStr, to)
+		return term(app("bytesN", sel(c, app("sarr", x.T)), app("soff", x.T), app("slen", x.T)), sStr, to)
 	case fs == sStr && ts == sSlice: // []byte(string)
 		el := to.Underlying().(*types.Slice).Elem()
 		a := e.allocRef(f.st, f.pc, f.id+".conv.arr")
@@ -1052,7 +1052,7 @@ func (f *Frame) convert(x *Value, from, to types.Type) *Value {
 		c := e.comp(f.st, cn, arr2Sort(sInt))
 		na := e.declare("convarr", arrSort(sInt))
 		ln := app("s.len", x.T)
-		e.assume("true", eq(app("bytes", na, "0", ln), x.T))
+		e.assume("true", eq(app("bytesN", na, "0", ln), x.T))
 		e.setComp(f.st, cn, store(c, a, na))
 		return term(app("mk-slice", a, "0", ln, ln), sSlice, to)
 	case fs == sInt && ts == sStr: // string(rune)
